@@ -27,4 +27,13 @@ theorem pool40 : GenV40.pool_new = [] ∧ GenV40.pool_uses = [] := by decide
 /-- the package imports exactly these standard packages (no `os`, `time`, `runtime`, `reflect`, `C`, no module-internal package:
     nothing through which the environment, the clock, the scheduler or foreign code could reach the translated functions) -/
 theorem imports40 : GenV40.pkg_imports = ["errors", "fmt", "math", "strings", "unsafe"] := by decide
+/-- files and initialisers outside what the translator reads: the hooks file declares only the `Verif…` accessors (no `init`, no
+    variable, no import), no file of the directory belongs to another platform's or another tag's build, and the only package-level
+    initialisers that run code are the `errors.New` sentinels -/
+theorem files40 : GenV40.hook_decls = ["zz_verif_hooks.go:func VerifBytes", "zz_verif_hooks.go:func VerifFromBytes", "zz_verif_hooks.go:func VerifLenVec", "zz_verif_hooks.go:func VerifLookupMV", "zz_verif_hooks.go:func VerifMacroVector", "zz_verif_hooks.go:func VerifRoundup"] ∧
+    GenV40.pkg_other_files = [] ∧
+    GenV40.pkg_var_inits = ["ErrInvalidCVSSHeader:call errors.New", "ErrInvalidMetricOrder:call errors.New", "ErrInvalidMetricValue:call errors.New", "ErrOutOfBoundsScore:call errors.New", "ErrTooShortVector:call errors.New"] := by decide
+/-- which function mentions which package-level table or pool (the `error` sentinels aside): nothing else in the package —
+    no `Error()` method, initialiser or untranslated helper — can read or write them, whatever aliasing it might use -/
+theorem uses40 : GenV40.pkg_var_uses = ["CVSS40.Score:highestSeverityVectors", "CVSS40.Score:highestSeverityVectorsEQ3EQ6", "ParseVector:order", "severityDistance:sevIdx"] := by decide
 end StateTie
